@@ -416,7 +416,17 @@ def call_count_findings(case, max_findings=3):
                         dk = (i - 1) // k_ - st_ + 1
                         if _due_by_statement(i, k_, T_, True, st_) and 1 < dk < T_:
                             want += len(names) * per_iter
-                if made != want:
+                if has_comp and getattr(case, 'reset_after_swap', False) and case.kind == 'pt':
+                    # a reset after a swap restarts the adaptation window of the exchanged levels, so the
+                    # number of virtual evaluations depends on the swap outcomes: the closed form above does
+                    # not apply (the plumbing correspondence compares the exact count, `extraCalls`); here
+                    # only the bounds that hold whatever the outcomes
+                    base = op[1] * per_iter
+                    most = base + op[1] * per_iter * sum(len(names) for _, names, kw in case.props if kw.get('componentwise'))
+                    if not base <= made <= most:
+                        bad('run-calls', 'run(%d) made %d model calls, expected between %d and %d' % (op[1], made, base, most),
+                            {'nchains': case.nchains, 'nlevels': nlev})
+                elif made != want:
                     bad('run-calls', 'run(%d) made %d model calls, expected %d' % (op[1], made, want),
                         {'nchains': case.nchains, 'nlevels': nlev})
                 for ev in cap.events:
@@ -701,6 +711,28 @@ def partition_findings(case, n, parts, clears, max_findings=3):
             for t, rows in enumerate(lv):
                 acc[ci][0][t].extend(rows)
             acc[ci][1].extend(sw)
+    held = []        # (what, the array the chain handed out before a clear, its bytes at that time)
+
+    def hold():
+        # history arrays taken from the chains themselves (views of the scratch space) right before a
+        # clear: the clear and the runs after it must leave them as they were
+        for ci, ch in enumerate(B.chains):
+            for t, lv in enumerate(I.levels_of(ch)):
+                for what in ('positions', 'stats', 'acceptance') + (('blobs',) if lv.hasblobs else ()):
+                    try:
+                        a = getattr(lv, what)
+                    except Exception:     # noqa: BLE001 - nothing retained yet
+                        continue
+                    if isinstance(a, numpy.ndarray) and a.size:
+                        held.append(('chain %d level %d %s' % (ci, t, what), a, a.tobytes()))
+            if len(case.betas) > 1 and case.kind == 'pt':
+                for what in ('temperature_swaps', 'temperature_acceptance'):
+                    try:
+                        a = getattr(ch, what)
+                    except Exception:     # noqa: BLE001
+                        continue
+                    if isinstance(a, numpy.ndarray) and a.size:
+                        held.append(('chain %d %s' % (ci, what), a, a.tobytes()))
     for k, m in enumerate(parts):
         try:
             B.run(m)
@@ -712,10 +744,16 @@ def partition_findings(case, n, parts, clears, max_findings=3):
         it += m
         if k in clears:
             collect()
+            hold()
             B.clear()
             if it % s != 0 and len(case.betas) > 1:
                 offmult = True
     collect()
+    for what, a, before in held:
+        if a.tobytes() != before:
+            bad('handed-out-history-overwritten', 'the %s array read from the chain before a clear() was overwritten by '
+                'the clear / the runs after it' % what)
+            break
     for ci in range(len(ref)):
         for t in range(len(ref[ci][0])):
             if acc[ci][0][t] != ref[ci][0][t]:
